@@ -38,6 +38,22 @@ pub mod verif_hooks {
     pub static EXPORT_ABORT_AT: AtomicUsize = AtomicUsize::new(0);
     pub static EXPORT_PROBES: AtomicUsize = AtomicUsize::new(0);
 
+    thread_local! {
+        /// Called at the lock-free gaps of announce, scrape and clean (no lock
+        /// held), with the kind of gap and a shard index or the first byte of
+        /// the info hash: lets a test scheduler serialise threads there.
+        pub static GATE: std::cell::RefCell<Option<Box<dyn Fn(&'static str, usize)>>> =
+            const { std::cell::RefCell::new(None) };
+    }
+
+    pub fn gate(kind: &'static str, arg: usize) {
+        GATE.with(|g| {
+            if let Some(f) = g.borrow().as_ref() {
+                f(kind, arg)
+            }
+        })
+    }
+
     pub fn export_probe() {
         let n = EXPORT_PROBES.fetch_add(1, Ordering::SeqCst) + 1;
 
@@ -253,6 +269,9 @@ impl<I: Ip> TorrentMapShards<I> {
             }
         };
 
+        #[cfg(feature = "verif-hooks")]
+        verif_hooks::gate("ann-have", request.info_hash.0[0] as usize % self.0.len());
+
         let mut peer_map = peer_map.write();
 
         peer_map.announce(
@@ -272,6 +291,11 @@ impl<I: Ip> TorrentMapShards<I> {
         };
 
         for info_hash in request.info_hashes {
+            #[cfg(feature = "verif-hooks")]
+            if !response.torrent_stats.is_empty() {
+                verif_hooks::gate("scr-next", info_hash.0[0] as usize % self.0.len());
+            }
+
             let torrent_map_shard = self.get_shard(&info_hash);
 
             let statistics = if let Some(peer_map) = torrent_map_shard.read().get(&info_hash) {
@@ -309,6 +333,9 @@ impl<I: Ip> TorrentMapShards<I> {
 
         // Remove expired peers; optionally calculate statistics and export
         // scrape information
+        #[cfg(feature = "verif-hooks")]
+        let mut verif_shard_index = 0usize;
+
         for torrent_map_shard in self.0.iter() {
             // To avoid having to keep a read lock on the whole shard, which
             // would prevent certain announce requests from being processed,
@@ -318,6 +345,12 @@ impl<I: Ip> TorrentMapShards<I> {
                 .iter()
                 .map(|(info_hash, peers)| (*info_hash, peers.clone()))
                 .collect::<Vec<_>>();
+
+            #[cfg(feature = "verif-hooks")]
+            {
+                verif_hooks::gate("cln-snap", verif_shard_index);
+                verif_shard_index += 1;
+            }
 
             for (info_hash, peer_map) in torrent_references {
                 let mut peer_map = peer_map.write();
@@ -376,12 +409,24 @@ impl<I: Ip> TorrentMapShards<I> {
                 }
 
                 total_num_peers += num_peers;
+
+                #[cfg(feature = "verif-hooks")]
+                verif_hooks::gate("cln-torrent", info_hash.0[0] as usize % self.0.len());
             }
         }
 
         // Now, remove torrents that are forbidden by the access list or which
         // have no peers. This unavoidably locks a whole shard at a time.
+        #[cfg(feature = "verif-hooks")]
+        let mut verif_shard_index = 0usize;
+
         for torrent_map_shard in self.0.iter() {
+            #[cfg(feature = "verif-hooks")]
+            {
+                verif_hooks::gate("cln-retain", verif_shard_index);
+                verif_shard_index += 1;
+            }
+
             let mut torrent_map_shard = torrent_map_shard.write();
 
             torrent_map_shard.retain(|info_hash, peer_map| {
